@@ -282,6 +282,12 @@ theorem lexNumber_json (signs : List Char) (hp : '+' ∈ signs) (hm : '-' ∈ si
               simp [this, h2']
           · simp [hsd] at h1
 
+/-- `lexNumber_json` under the hypotheses on the configuration -/
+theorem number_literal_accepted' (cfg : Cfg) (hp : '+' ∈ cfg.expSigns ∧ '-' ∈ cfg.expSigns) (lit rest : Chars)
+    (hl : isJsonUNum lit = true) (hf : NumFollow rest) :
+    lexNumber cfg.expSigns (lit ++ rest) = (⟨if isIntLit lit = true then .int else .float, lit⟩, rest) :=
+  lexNumber_json cfg.expSigns hp.1 hp.2 lit rest hl hf
+
 /-! ### identifiers and keywords: the printer's `isIdent` against the lexer's identifier syntax -/
 
 theorem isIdentTail_false (s : Bytes) : isIdentTail s false = (bytesChars s).all isIdentChar := by
